@@ -347,6 +347,9 @@ where
 fn ctor_and_consts<T: NT>(mode: Mode, rep: &mut Report, st: &mut Stats) {
     // T::new over the whole repr range
     for v in 0..=T::REPR_MAX {
+        if crate::mon::ABORT_BUILD && v > T::MAXV {
+            break;
+        }
         let r = api_probe("<restricted integer>::new", || T::new_raw(v));
         st.evals += 1;
         let rp = json!({"kind":"new","type":T::NAME,"input":v});
